@@ -35,9 +35,9 @@ WATCHDOG = 10
 WATCHDOG_CONFIRM = 60
 WORKERS = 4
 CORPUS = os.path.join(vlib.ROOT, "corpus", "C13")
-FLAGS = ["snt", "dct", "link", "nest", "fmt", "tag", "dtov", "rtype", "dim", "short", "sizes"]      # order of AdfCodec.fixes
+FLAGS = ["snt", "dct", "link", "nest", "fmt", "tag", "dtov", "rtype", "dim", "short", "sizes", "rad"]      # order of AdfCodec.fixes
 FLAG_FIX = {"snt": "01", "dct": "02", "link": "03", "nest": "04", "fmt": "05", "tag": "06", "dtov": "07", "rtype": "08",
-            "dim": "11", "short": "13", "sizes": "14"}
+            "dim": "11", "short": "13", "sizes": "14", "rad": "15"}
 KNOWN_DEFECT_KEY = "adf-subnode-table-count-vs-chunk-length"
 _CFG = {"bits": "0" * len(FLAGS)}
 
@@ -209,6 +209,8 @@ def root_cause(backend, mode, outcome, lines, frames, umsg, fclass, mverdict=Non
         if kind.startswith("ubsan-signed-integer-overflow") and top in ("cgio_compute_data_size", "cgio_get_data_size"):
             neg = bool(re.search(r"overflow: -\d+ \*", umsg or ""))
             return "adf:dimension-value-exceeds-cgsize" if neg else "cgio:data-size-product-overflow"
+        if kind == "heap-buffer-overflow" and top == "ADF_Read_All_Data" and fclass != "node.data_type":
+            return "adf:incomplete-data-zero-fill-counts-file-bytes"
         if kind == "heap-buffer-overflow" and "ADF_Read_All_Data" in S:
             if fclass == "node.data_type":
                 return "adf:compound-datatype-read-into-2-char-typed-buffer"
